@@ -608,6 +608,37 @@ def gen_case(r, kind=None, multi=None):
     return {'space': sspec, 'graph': gspec, 'objective': gen_objective(r, multi), 'tuner': t}
 
 
+def wide_cases(r, n):
+    """graphs of 11-13 nodes (two-digit node ids): a chain 0 <- 1 <- ... with random skip edges, so graph.nodes is
+    in index order; nodes 1 and 2 carry a parameter 'x' that the tuner must not touch (operation outside the
+    search space, or in the space with ANOTHER range), nodes 10.. are tunable with a parameter of the same name"""
+    out = []
+    for c in range(n):
+        n_nodes = r.choice([11, 12, 13])
+        xa = r.choice([['uniformint', 1, 3], ['uniform', 0.5, 1.0], ['choice', [1, 2]]])
+        sspec = {'a': {'x': xa, 'y': ['uniform', 0.25, 0.75]}}
+        other_range = r.random() < 0.4
+        if other_range:
+            sspec['b'] = {'x': ['uniformint', 4, 5]}
+        gspec = []
+        for i in range(n_nodes):
+            parents = [i + 1] if i + 1 < n_nodes else []
+            parents += [j for j in range(i + 2, n_nodes) if r.random() < 0.12][:2]
+            if i in (1, 2):
+                name = 'b' if (other_range and i == 1) else r.choice(UNTUNABLE)
+                params = {'x': 5, 'zz': r.choice([5, 'B'])}
+            elif i >= 10:
+                name, params = 'a', (None if r.random() < 0.7 else {'x': value_inside(r, xa)})
+            else:
+                name = r.choice(UNTUNABLE + ['e', 'a'] if i > 2 else UNTUNABLE)
+                params = None if r.random() < 0.6 else {'q': 1}
+            gspec.append({'name': name, 'params': params, 'parents': parents})
+        t = {'kind': ['simultaneous', 'optuna'][c % 2], 'iterations': r.choice([2, 3, 4]), 'deviation': r.choice([0.05, 0.0])}
+        out.append({'space': sspec, 'graph': gspec, 'objective': {'multi': False, 'metrics': [r.choice(['sum', 'sum', 'quad'])], 'fail': None},
+                    'tuner': t})
+    return out
+
+
 def corner_cases():
     """fixed corner inputs (nothing to tune, one node, empty graph / space, unsupported modes)"""
     sp1 = {'a': {'x': ['uniformint', 1, 3], 'y': ['uniform', 0.5, 1.0]}}
@@ -783,7 +814,8 @@ def run(ctx):
                 '(uniformint, randint, uniform, loguniform, choice incl. None) x objectives on a 1/64 grid (sum, neg, quad, '
                 'minimum at the initial point, slightly worse than the input elsewhere, constant; failing on a third of the assignments / on every tuned assignment / '
                 'on the input) x iterations 1..12 x deviation {0.05, 0, 25}; single- and multi-objective (Optuna / IOpt), plus a '
-                'fixed list of corner inputs for every tuner; distinct = distinct (space, graph, objective, tuner config); '
+                'fixed list of corner inputs for every tuner, plus chains of 11-13 nodes (two-digit node ids; frozen nodes 1, 2 share a '
+                'parameter name with tunable nodes 10..) for Simultaneous / Optuna; distinct = distinct (space, graph, objective, tuner config); '
                 'non-trivial = something to tune and tune() returned')
     ctx.trusted_extra = [
         'hyperopt / optuna / iOpt are arbitrary proposers to the model: their proposals are inferred from the logged '
@@ -813,6 +845,12 @@ def run(ctx):
                     'observed': {k: run_['obs'][k] for k in ('raised', 'multi', 'init_metric', 'reported', 'metric_in', 'metric_ret')},
                     'returned_params': [[nd['params'] for nd in g] for g in run_['obs']['graphs']],
                     'agree': r[0], 'holds': r[1]})
+    wide = wide_cases(ctx.rng, ctx.budget(16, 80))
+    kept, runs, res = evaluate_cases(ctx, 'wide', wide)
+    for case, run_ in zip(kept, runs):
+        if [nd['name'] for nd in run_['input']] != [nd['name'] for nd in case['graph']]:
+            ctx.error('wide', 'graph.nodes is not in the index order the generator relies on')
+            break
     canary(ctx)
     ctx.notes.append('implementation + inference time %.1fs, coqc %.1fs' % (time.time() - t0 - ctx.coq_s, ctx.coq_s))
 
